@@ -506,6 +506,54 @@ def run_go_cases(ctx, gospec, cases, tag="main", timeout=900, race=False):
     return ok, outs, params, log
 
 
+def refresh_foreign_params(ctx):
+    """Regenerate, from the tree under check, the gen/Params<Cyy>.v files of OTHER properties that this property's
+    theorems and correspondence depend on (C03 cites C13's lemmas, which are stated over ParamsC13, and so on).
+    Without this a constant changed in /repo would reach those files only when the other property's check runs.
+    The other property's Go harness is run on an empty case list: it only reports its parameters."""
+    import importlib
+    import threading
+    todo = []
+    try:
+        own = getattr(importlib.import_module("vlib.props." + ctx.pid), "PARAMS_NAME", None)
+    except Exception:  # pragma: no cover
+        own = None
+    for rel in dep_closure(ctx.pid):
+        m = re.match(r"gen/Params(C\d\d)\.v$", rel)
+        # a file this property's own harness rewrites anyway (C02 shares ParamsC01 with C01) is left to it
+        if m and m.group(1) != ctx.pid and "Params" + m.group(1) != own:
+            todo.append(m.group(1))
+    notes = []
+
+    def one(other):
+        try:
+            mod = importlib.import_module("vlib.props." + other)
+            go = getattr(mod, "GO", None)
+            name = getattr(mod, "PARAMS_NAME", None)
+            if not go or not name:
+                notes.append("%s: no parameter source" % other)
+                return
+            _ok, _outs, params, log = run_go_cases(ctx, go, [], tag="params_" + other, timeout=600)
+            if params is None:
+                notes.append("%s: parameters of %s could not be regenerated from the current tree (%s)"
+                             % (ctx.pid, other, log.strip()[-300:]))
+                return
+            if write_params(name, [tuple(p) for p in params]):
+                ctx.say("parameters of %s changed in the tree under check -> gen/%s.v rewritten" % (other, name))
+        except Exception as ex:  # pragma: no cover
+            notes.append("%s: refresh of %s parameters failed: %r" % (ctx.pid, other, ex))
+
+    ths = [threading.Thread(target=one, args=(o,)) for o in sorted(set(todo))]
+    for t in ths:
+        t.start()
+    for t in ths:
+        t.join()
+    for n in notes:
+        ctx.say("note: " + n)
+    ctx.notes += notes
+    return notes
+
+
 def eval_cases(ctx, prefix, header, terms, per_shard=250, timeout=900):
     """Evaluate `mismatches cases` in Coq over shards (round-robin so heavy cases spread).
     Returns (ok, mismatching global indices, err)."""
